@@ -1,6 +1,8 @@
 import Mathlib.Tactic
 import QG.Gen.GateSets
 import QG.Lemmas.GatesDet
+import QG.Lemmas.RelaxationChannel
+import QG.Lemmas.Integrator
 
 /-!
 # C04 — elementary noisy gates follow the Lindblad noisy-gate model
@@ -179,5 +181,261 @@ theorem drift_cr_trg :
 
 end cr
 end generic
+
+/-! ## covariance tables: the Itô isometry for exactly the basis functions of the decompositions -/
+
+/-- the covariance the Itô isometry demands for the integrals `S_j = ∫ f_j(θ(t)) dW_t`, `t ∈ [0, a]` -/
+noncomputable def itoCov {n : ℕ} (f : Fin n → ℝ → ℝ) (F : ℝ → ℝ) (θ a : ℝ) : Matrix (Fin n) (Fin n) ℝ :=
+  Matrix.of fun i j => QG.Spec.integ F (fun x => f i x * f j x) θ a
+
+/-- basis of `X(t), Y(t), σ⁻(t)` (single qubit) and of `1⊗X, 1⊗Y, 1⊗σ⁻` (CR): `sinθ, sin²(θ/2), 1` -/
+noncomputable def basisXY : Fin 3 → ℝ → ℝ := ![Real.sin, fun x => Real.sin (x / 2) ^ 2, fun _ => 1]
+/-- basis of `Z(t)` (single qubit) and of `σ⁻⊗1, X⊗1, Y⊗1, 1⊗Z` (CR): `cosθ, sinθ` -/
+noncomputable def basisZ : Fin 2 → ℝ → ℝ := ![Real.cos, Real.sin]
+
+/-- the basis functions are what the generic-field decompositions substitute, at `c = cos(θ/2), s = sin(θ/2)` -/
+theorem basis_instantiation (x : ℝ) :
+    2 * Real.sin (x / 2) * Real.cos (x / 2) = Real.sin x ∧
+    Real.cos (x / 2) ^ 2 - Real.sin (x / 2) ^ 2 = Real.cos x := by
+  constructor
+  · have := Real.sin_two_mul (x / 2); rw [show 2 * (x / 2) = x by ring] at this; linarith
+  · have := Real.cos_sq' (x / 2); have h2 := Real.cos_two_mul (x / 2)
+    rw [show 2 * (x / 2) = x by ring] at h2; nlinarith [Real.sin_sq_add_cos_sq (x / 2)]
+
+private theorem g0_eq : g0 = fun x => Real.sin x * Real.sin x := by funext x; simp [g0]; ring
+private theorem g1_eq : g1 = fun x => Real.sin (x / 2) ^ 2 * Real.sin (x / 2) ^ 2 := by funext x; simp [g1]; ring
+private theorem g2_eq : g2 = fun x => Real.sin x * Real.sin (x / 2) ^ 2 := by funext x; simp [g2]
+private theorem g2_eq' : g2 = fun x => Real.sin (x / 2) ^ 2 * Real.sin x := by funext x; simp [g2]; ring
+private theorem g3_eq : g3 = fun x => Real.sin (x / 2) ^ 2 * 1 := by funext x; simp [g3]
+private theorem g3_eq' : g3 = fun x => 1 * Real.sin (x / 2) ^ 2 := by funext x; simp [g3]
+private theorem g4_eq : g4 = fun x => Real.cos x * Real.cos x := by funext x; simp [g4]; ring
+private theorem g5_eq : g5 = fun x => Real.cos x * Real.sin x := by funext x; simp [g5]; ring
+private theorem g5_eq' : g5 = fun x => Real.sin x * Real.cos x := by funext x; simp [g5]
+private theorem g6_eq : g6 = fun x => Real.sin x * 1 := by funext x; simp [g6]
+private theorem g6_eq' : g6 = fun x => 1 * Real.sin x := by funext x; simp [g6]
+
+private theorem cov3 (F : ℝ → ℝ) (θ a : ℝ) :
+    !![QG.Spec.integ F g0 θ a, QG.Spec.integ F g2 θ a, QG.Spec.integ F g6 θ a;
+       QG.Spec.integ F g2 θ a, QG.Spec.integ F g1 θ a, QG.Spec.integ F g3 θ a;
+       QG.Spec.integ F g6 θ a, QG.Spec.integ F g3 θ a, a] = itoCov basisXY F θ a := by
+  ext i j; fin_cases i <;> fin_cases j <;> simp [itoCov, basisXY, QG.Spec.integ_const]
+  · rw [g0_eq]
+  · rw [g2_eq]
+  · rw [g6_eq]; simp
+  · rw [g2_eq']
+  · rw [g1_eq]
+  · rw [g3_eq]; simp
+  · rw [g6_eq']; simp
+  · rw [g3_eq']; simp
+
+private theorem cov2 (F : ℝ → ℝ) (θ a : ℝ) :
+    !![QG.Spec.integ F g4 θ a, QG.Spec.integ F g5 θ a; QG.Spec.integ F g5 θ a, QG.Spec.integ F g0 θ a]
+      = itoCov basisZ F θ a := by
+  ext i j; fin_cases i <;> fin_cases j <;> simp [itoCov, basisZ]
+  · rw [g4_eq]
+  · rw [g5_eq]
+  · rw [g5_eq']
+  · rw [g0_eq]
+
+/-- single-qubit samplers: `(Idx1, Idx2, Wdx)`, `(Idy1, Idy2, Wdy)`, `(Ir1, Ir2, Wr)` for `X, Y, σ⁻`;
+`(Idz1, Idz2)`, `(Ip1, Ip2)` for `Z` -/
+theorem cov_single_XY (F : ℝ → ℝ) (θ : ℝ) :
+    SingleQubit.cov_Idx1 F θ = itoCov basisXY F θ 1 ∧ SingleQubit.cov_Idy1 F θ = itoCov basisXY F θ 1 ∧
+    SingleQubit.cov_Ir1 F θ = itoCov basisXY F θ 1 := by
+  refine ⟨?_, ?_, ?_⟩ <;> simp only [SingleQubit.cov_Idx1, SingleQubit.cov_Idy1, SingleQubit.cov_Ir1] <;>
+    exact cov3 F θ 1
+
+theorem cov_single_Z (F : ℝ → ℝ) (θ : ℝ) :
+    SingleQubit.cov_Idz1 F θ = itoCov basisZ F θ 1 ∧ SingleQubit.cov_Ip1 F θ = itoCov basisZ F θ 1 := by
+  refine ⟨?_, ?_⟩ <;> simp only [SingleQubit.cov_Idz1, SingleQubit.cov_Ip1] <;> exact cov2 F θ 1
+
+/-- cross-resonance samplers, duration `a = t_cr / tg` -/
+theorem cov_cr_XY (F : ℝ → ℝ) (θ t_cr : ℝ) :
+    CR.cov_Ir_trg_1 F θ t_cr = itoCov basisXY F θ (CR.a t_cr) ∧
+    CR.cov_Idx_trg_1 F θ t_cr = itoCov basisXY F θ (CR.a t_cr) ∧
+    CR.cov_Idy_trg_1 F θ t_cr = itoCov basisXY F θ (CR.a t_cr) := by
+  refine ⟨?_, ?_, ?_⟩ <;> simp only [CR.cov_Ir_trg_1, CR.cov_Idx_trg_1, CR.cov_Idy_trg_1] <;>
+    exact cov3 F θ _
+
+theorem cov_cr_Z (F : ℝ → ℝ) (θ t_cr : ℝ) :
+    CR.cov_Ir_ctr_1 F θ t_cr = itoCov basisZ F θ (CR.a t_cr) ∧
+    CR.cov_Ip_trg_1 F θ t_cr = itoCov basisZ F θ (CR.a t_cr) ∧
+    CR.cov_Idx_ctr_1 F θ t_cr = itoCov basisZ F θ (CR.a t_cr) ∧
+    CR.cov_Idy_ctr_1 F θ t_cr = itoCov basisZ F θ (CR.a t_cr) ∧
+    CR.cov_Idz_trg_1 F θ t_cr = itoCov basisZ F θ (CR.a t_cr) := by
+  refine ⟨?_, ?_, ?_, ?_, ?_⟩ <;>
+    simp only [CR.cov_Ir_ctr_1, CR.cov_Ip_trg_1, CR.cov_Idx_ctr_1, CR.cov_Idy_ctr_1, CR.cov_Idz_trg_1] <;>
+    exact cov2 F θ _
+
+/-- the two `Z ⊗ 1` processes of the CR gate are invariant under the drive: plain Wiener increments of variance `a` -/
+theorem var_cr_Z_ctr (F : ℝ → ℝ) (θ t_cr : ℝ) (h : 0 ≤ CR.a t_cr) :
+    CR.std_Wp_ctr t_cr ^ 2 = QG.Spec.integ F (fun _ => 1 * 1) θ (CR.a t_cr) ∧
+    CR.std_Wdz_ctr t_cr ^ 2 = QG.Spec.integ F (fun _ => 1 * 1) θ (CR.a t_cr) := by
+  constructor <;> simp [CR.std_Wp_ctr, CR.std_Wdz_ctr, QG.Spec.integ_const, Real.sq_sqrt h]
+
+/-! ## the cross-resonance drift is hard-coded for the **constant** pulse
+
+`det1, det2, det3` of `CRFactory` are closed forms, not routed through the integrator: they are the
+integrals of `(sin²(θ/2), sinθ, cos²(θ/2))` for the constant pulse `F = id` only (for other pulse shapes
+the drift of the CR gate does not follow the pulse; remark R1 in DESIGN.md, `_partial` with respect to
+"every pulse shape"). -/
+theorem drift_cr_closed_forms_partial (t_cr θ : ℝ) (hθ : θ ≠ 0) (ha : 0 < CR.a t_cr) :
+    CR.det1 t_cr θ = QG.Spec.integ id g3 θ (CR.a t_cr) ∧
+    CR.det2 t_cr θ = QG.Spec.integ id g6 θ (CR.a t_cr) ∧
+    CR.det3 t_cr θ = QG.Spec.integ id g7 θ (CR.a t_cr) := by
+  have e : ∀ t : ℝ, θ * id (t / CR.a t_cr) = θ * t / CR.a t_cr := fun t => by simp [mul_div_assoc]
+  refine ⟨?_, ?_, ?_⟩
+  · unfold QG.Spec.integ g3; simp_rw [e]
+    rw [QG.Integrator.cf_sin_half_sq θ _ hθ ha]; unfold CR.det1; field_simp
+  · unfold QG.Spec.integ g6; simp_rw [e]
+    have := QG.Integrator.cf_sin θ _ hθ ha
+    simp only [div_one]; rw [this]; unfold CR.det2; field_simp
+  · unfold QG.Spec.integ g7; simp_rw [e]
+    rw [QG.Integrator.cf_cos_half_sq θ _ hθ ha]; unfold CR.det3; field_simp
+
+/-! ## strengths -/
+
+theorem strength_ed (p : ℝ) (hp : 0 ≤ p) : SingleQubit.ed p ^ 2 = p / 4 := by
+  unfold SingleQubit.ed; rw [Real.sq_sqrt]; positivity
+
+theorem strength_e1 (T1 : ℝ) (h : 0 < T1) : SingleQubit.e1 T1 ^ 2 = SingleQubit.tg / T1 := by
+  rw [sq_e1_sq T1 h.le]; unfold decay; simp [h.ne']
+
+/-- `ep² = (tg/T2 − tg/(2 T1))/2`, i.e. `L_φ = sqrt((tg/T2 − tg/2T1)/2) Z`, for `0 < T2 ≤ 2 T1` (boundary included) -/
+theorem strength_ep (T1 T2 : ℝ) (h1 : 0 < T1) (h2 : 0 < T2) (h : T2 ≤ 2 * T1) :
+    SingleQubit.ep T2 T1 ^ 2 = (SingleQubit.tg / T2 - SingleQubit.tg / (2 * T1)) / 2 := by
+  have htg : (0:ℝ) < SingleQubit.tg := by unfold SingleQubit.tg; norm_num
+  have : SingleQubit.tg / (2 * T1) ≤ SingleQubit.tg / T2 := div_le_div_of_nonneg_left htg.le h2 h
+  have e : SingleQubit.tg / T1 / 2 = SingleQubit.tg / (2 * T1) := by field_simp
+  unfold SingleQubit.ep
+  simp only [if_neg h2.ne', if_pos h1.ne', ne_eq, h1.ne', not_false_eq_true, if_true]
+  rw [Real.sq_sqrt (by nlinarith)]
+  ring
+
+theorem strength_ed_cr (p_cr t_cr : ℝ) (hp : 0 ≤ p_cr) (ht : 0 < t_cr) :
+    CR.ed_cr p_cr t_cr ^ 2 * CR.a t_cr = p_cr / 4 := by
+  have ha : 0 < CR.a t_cr := by unfold CR.a CR.tg; positivity
+  unfold CR.ed_cr; rw [Real.sq_sqrt (by positivity)]; field_simp
+
+/-- the scaled-noise gate set hands the factories `(p·s, T1/s, T2/s)` -/
+theorem scaled_passes_scaled_parameters (F : ℝ → ℝ) (s theta phi p T1 T2 : ℝ) (w : SingleQubit.Samples) :
+    Scaled.single_qubit_gate F s theta phi p T1 T2 w
+      = SingleQubit.construct F theta phi (p * s) (T1 / s) (T2 / s) w := rfl
+
+
+/-! ## idle relaxation: the shot average of `G ρ G†` is exactly the T1/T2 channel
+
+`G(W, I)` with independent `W ~ N(0, Δ)`, `I ~ N(0, 1 − e^{−e1²Δ})`, `Δ = Dt/tg` (the standard deviations the
+code hands to `np.random.normal`, `relaxation_variances`).  A genuine probability statement on
+Mathlib's `gaussianReal`. -/
+
+section relaxation
+open Complex MeasureTheory ProbabilityTheory
+open scoped ComplexConjugate NNReal
+private theorem relaxation_sandwich_entries (Dt T1 T2 : ℝ) (w : Relaxation.Samples) (ρ : Matrix (Fin 2) (Fin 2) ℂ) :
+    let G := Relaxation.construct Dt T1 T2 w
+    let d : ℂ := ((Real.exp (-(Relaxation.e1 T1) ^ 2 / 2 * Relaxation.Dt_1 Dt) : ℝ) : ℂ)
+    let ε : ℝ := Relaxation.ep T2 T1
+    (G * ρ * Gᴴ) 0 1 = d * cexp (2 * ε * w.W * I) * ρ 0 1 + I * (w.I : ℂ) * d * ρ 1 1 ∧
+    (G * ρ * Gᴴ) 1 1 = d * d * ρ 1 1 ∧
+    (G * ρ * Gᴴ) 0 0 = ρ 0 0 + (w.I : ℂ) ^ 2 * ρ 1 1
+      + ((-I * ρ 0 1) * cexp (2 * ε * w.W * I) + (I * ρ 1 0) * cexp (-2 * ε * w.W * I)) * (w.I : ℂ) := by
+  intro G d ε
+  set E : ℂ := cexp (I * (ε : ℂ) * (w.W : ℂ)) with hE
+  set Ei : ℂ := cexp (-I * (ε : ℂ) * (w.W : ℂ)) with hEi
+  have hEE : E * Ei = 1 := by rw [hE, hEi, ← Complex.exp_add]; ring_nf; simp
+  have cE : conj E = Ei := by
+    rw [hE, hEi, ← Complex.exp_conj]; simp
+  have cEi : conj Ei = E := by
+    rw [hE, hEi, ← Complex.exp_conj]; simp
+  have hd : conj d = d := Complex.conj_ofReal _
+  have e2 : cexp (2 * (ε : ℂ) * (w.W : ℂ) * I) = E * E := by rw [hE, ← Complex.exp_add]; ring_nf
+  have e2' : cexp (-2 * (ε : ℂ) * (w.W : ℂ) * I) = Ei * Ei := by rw [hEi, ← Complex.exp_add]; ring_nf
+  have hG : G = !![E, I * (w.I : ℂ) * Ei; 0, d * Ei] := by
+    simp only [G, Relaxation.construct, Relaxation.resultMat, hE, hEi, d, ε]
+    ext a b; fin_cases a <;> fin_cases b <;> simp [Complex.ofReal_exp]
+  rw [e2, e2', hG]
+  refine ⟨?_, ?_, ?_⟩
+  · simp only [Matrix.mul_apply, Fin.sum_univ_two, Matrix.conjTranspose_apply, Matrix.of_apply, Matrix.cons_val', Matrix.cons_val_zero, Matrix.cons_val_one, Matrix.cons_val_fin_one, Matrix.head_cons, Matrix.empty_val', Fin.isValue, star_def, map_mul, map_zero, cE, cEi, hd, Complex.conj_I, Complex.conj_ofReal, map_neg, zero_mul, mul_zero, add_zero, zero_add]
+    linear_combination (I * (w.I : ℂ) * ρ 1 1 * d) * hEE
+  · simp only [Matrix.mul_apply, Fin.sum_univ_two, Matrix.conjTranspose_apply, Matrix.of_apply, Matrix.cons_val', Matrix.cons_val_zero, Matrix.cons_val_one, Matrix.cons_val_fin_one, Matrix.head_cons, Matrix.empty_val', Fin.isValue, star_def, map_mul, map_zero, cE, cEi, hd, Complex.conj_I, Complex.conj_ofReal, map_neg, zero_mul, mul_zero, add_zero, zero_add]
+    linear_combination (d * d * ρ 1 1) * hEE
+  · simp only [Matrix.mul_apply, Fin.sum_univ_two, Matrix.conjTranspose_apply, Matrix.of_apply, Matrix.cons_val', Matrix.cons_val_zero, Matrix.cons_val_one, Matrix.cons_val_fin_one, Matrix.head_cons, Matrix.empty_val', Fin.isValue, star_def, map_mul, map_zero, cE, cEi, hd, Complex.conj_I, Complex.conj_ofReal, map_neg, zero_mul, mul_zero, add_zero, zero_add]
+    linear_combination (ρ 0 0 - (w.I : ℂ) ^ 2 * ρ 1 1 * I ^ 2) * hEE - (w.I : ℂ) ^ 2 * ρ 1 1 * Complex.I_sq
+
+theorem relaxation_variances (Dt T1 : ℝ) (hDt : 0 ≤ Dt) :
+    Relaxation.std_W Dt ^ 2 = Relaxation.Dt_1 Dt ∧
+    Relaxation.std_I (T1 := T1) (Dt := Dt) ^ 2
+      = 1 - Real.exp (-(Relaxation.e1 T1) ^ 2 * Relaxation.Dt_1 Dt) := by
+  have hΔ : 0 ≤ Relaxation.Dt_1 Dt := by unfold Relaxation.Dt_1 Relaxation.tg; positivity
+  constructor
+  · unfold Relaxation.std_W; exact Real.sq_sqrt hΔ
+  · unfold Relaxation.std_I; rw [Real.sq_sqrt]
+    have : -(Relaxation.e1 T1) ^ 2 * Relaxation.Dt_1 Dt ≤ 0 := by nlinarith [sq_nonneg (Relaxation.e1 T1)]
+    linarith [Real.exp_le_one_iff.mpr this]
+
+/-- rates: `d² = e^{−Dt/T1}` and `d·e^{−2 ep² Δ} = e^{−Dt/T2}` for `0 < T2 ≤ 2 T1` -/
+theorem relaxation_rates (Dt T1 T2 : ℝ) (h1 : 0 < T1) (h2 : 0 < T2) (h : T2 ≤ 2 * T1) :
+    (Relaxation.e1 T1) ^ 2 * Relaxation.Dt_1 Dt = Dt / T1 ∧
+    (Relaxation.e1 T1) ^ 2 / 2 * Relaxation.Dt_1 Dt + 2 * (Relaxation.ep T2 T1) ^ 2 * Relaxation.Dt_1 Dt = Dt / T2 := by
+  have htg : (0:ℝ) < Relaxation.tg := by unfold Relaxation.tg; norm_num
+  have he1 : (Relaxation.e1 T1) ^ 2 = Relaxation.tg / T1 := by
+    rw [relax_e1_sq T1 h1.le]; unfold decay; simp [h1.ne']
+  have hep : (Relaxation.ep T2 T1) ^ 2 = (Relaxation.tg / T2 - Relaxation.tg / T1 / 2) / 2 := by
+    have : Relaxation.tg / (2 * T1) ≤ Relaxation.tg / T2 := div_le_div_of_nonneg_left htg.le h2 h
+    have e : Relaxation.tg / T1 / 2 = Relaxation.tg / (2 * T1) := by field_simp
+    unfold Relaxation.ep
+    simp only [if_neg h2.ne', ne_eq, h1.ne', not_false_eq_true, if_true]
+    rw [Real.sq_sqrt (by nlinarith)]
+    ring
+  constructor
+  · rw [he1]; unfold Relaxation.Dt_1; field_simp
+  · rw [he1, hep]; unfold Relaxation.Dt_1; field_simp; ring
+
+/-- **the T1/T2 channel**: coherence decays with `e^{−Dt/T2}`, the excited population with `e^{−Dt/T1}` and
+what it loses goes to the ground state -/
+theorem relaxation_channel (Dt T1 T2 : ℝ) (hDt : 0 ≤ Dt) (h1 : 0 < T1) (h2 : 0 < T2) (h : T2 ≤ 2 * T1)
+    (ρ : Matrix (Fin 2) (Fin 2) ℂ) (Δ V : ℝ≥0) (hΔ : (Δ : ℝ) = Relaxation.std_W Dt ^ 2)
+    (hV : (V : ℝ) = Relaxation.std_I (T1 := T1) (Dt := Dt) ^ 2) :
+    let G : ℝ × ℝ → Matrix (Fin 2) (Fin 2) ℂ := fun z => Relaxation.construct Dt T1 T2 ⟨z.1, z.2⟩
+    let μ := (gaussianReal 0 Δ).prod (gaussianReal 0 V)
+    ∫ z, (G z * ρ * (G z)ᴴ) 0 1 ∂μ = ((Real.exp (-(Dt / T2)) : ℝ) : ℂ) * ρ 0 1 ∧
+    ∫ z, (G z * ρ * (G z)ᴴ) 1 1 ∂μ = ((Real.exp (-(Dt / T1)) : ℝ) : ℂ) * ρ 1 1 ∧
+    ∫ z, (G z * ρ * (G z)ᴴ) 0 0 ∂μ = ρ 0 0 + ((1 - Real.exp (-(Dt / T1)) : ℝ) : ℂ) * ρ 1 1 := by
+  intro G μ
+  obtain ⟨r1, r2⟩ := relaxation_rates Dt T1 T2 h1 h2 h
+  obtain ⟨v1, v2⟩ := relaxation_variances Dt T1 hDt
+  have hΔ' : (Δ : ℝ) = Relaxation.Dt_1 Dt := by rw [hΔ, v1]
+  have hV' : (V : ℝ) = 1 - Real.exp (-(Dt / T1)) := by rw [hV, v2, neg_mul, r1]
+  set d : ℝ := Real.exp (-(Relaxation.e1 T1) ^ 2 / 2 * Relaxation.Dt_1 Dt) with hd
+  set ε : ℝ := Relaxation.ep T2 T1 with hε
+  have hdd : d * d = Real.exp (-(Dt / T1)) := by
+    rw [hd, ← Real.exp_add]; congr 1; rw [← r1]; ring
+  refine ⟨?_, ?_, ?_⟩
+  · have e : ∀ z : ℝ × ℝ, (G z * ρ * (G z)ᴴ) 0 1
+        = (d : ℂ) * cexp (2 * ε * z.1 * I) * ρ 0 1 + I * (z.2 : ℂ) * d * ρ 1 1 :=
+      fun z => (relaxation_sandwich_entries Dt T1 T2 ⟨z.1, z.2⟩ ρ).1
+    simp_rw [e]
+    rw [QG.Lemmas.Relax.coherence_decay Δ V ε d (ρ 0 1) (ρ 1 1)]
+    congr 1
+    have : (-(2 * (ε : ℂ) ^ 2 * ((Δ : ℝ) : ℂ))) = ((-(2 * ε ^ 2 * (Δ : ℝ)) : ℝ) : ℂ) := by push_cast; ring
+    rw [this, ← Complex.ofReal_exp, ← Complex.ofReal_mul]
+    congr 1
+    rw [hd, ← Real.exp_add]; congr 1
+    rw [hΔ', ← r2]; ring
+  · have e : ∀ z : ℝ × ℝ, (G z * ρ * (G z)ᴴ) 1 1 = (d : ℂ) * d * ρ 1 1 :=
+      fun z => (relaxation_sandwich_entries Dt T1 T2 ⟨z.1, z.2⟩ ρ).2.1
+    simp_rw [e]
+    have : IsProbabilityMeasure μ := by infer_instance
+    rw [integral_const, probReal_univ, one_smul, ← Complex.ofReal_mul, hdd]
+  · have e : ∀ z : ℝ × ℝ, (G z * ρ * (G z)ᴴ) 0 0 = ρ 0 0 + ((z.2 : ℂ)) ^ 2 * ρ 1 1
+        + ((-I * ρ 0 1) * cexp (2 * ε * z.1 * I) + (I * ρ 1 0) * cexp (-2 * ε * z.1 * I)) * (z.2 : ℂ) :=
+      fun z => (relaxation_sandwich_entries Dt T1 T2 ⟨z.1, z.2⟩ ρ).2.2
+    simp_rw [e]
+    rw [QG.Lemmas.Relax.population_gain' Δ V ε (ρ 0 0) (ρ 1 1) (-I * ρ 0 1) (I * ρ 1 0)]
+    congr 2
+    exact_mod_cast hV'
+
+end relaxation
 
 end QG.C04
